@@ -351,8 +351,8 @@ func runC16(c *Check) {
 							switch {
 							case lu.Op == "const" && lu.Name == "0":
 							case lu.Op == "bin" && lu.Name == "+" && len(lu.Args) == 2 && (strings.HasPrefix(lu.Args[0].unconv().String(), "len(") || strings.HasPrefix(lu.Args[1].unconv().String(), "len(")):
-							case lu.Op == "load" || lu.Op == "alloc":
-								// a captured cell: decided by the closure form below
+							case lu.Op == "load" || lu.Op == "alloc" || (lu.Op == "field" && func() bool { r := rootOf(lu); return r != nil && r.Op == "alloc" }()):
+								// a cell (a captured variable, a field of a local result bundle): its updates are the +len stores
 							default:
 								okStart, why = false, "the running size can start from or grow by "+trunc(lu.String(), 60)
 							}
@@ -388,16 +388,22 @@ func runC16(c *Check) {
 				// the counter incremented on the skip path
 				var counter *ssa.BinOp
 				var counterCell *ssa.Alloc // the counter lives in a variable captured by a closure
+				var counterFieldAlloc *ssa.Alloc // … or in a field of a local result bundle
+				counterField := -1
 				for n := range g.Reachable(skipEdges, nodeSet(apps)) {
 					if b, ok := n.In.(*ssa.BinOp); ok && b.Op == token.ADD {
 						if k, ok := b.Y.(*ssa.Const); ok && k.Int64() == 1 {
 							_, isPhi := b.X.(*ssa.Phi)
 							cell := cellOfLoad(b.X, n.Ctx)
-							if (isPhi || cell != nil) && counter == nil {
+							fal, ffield, isFieldCell := fieldCellOfLoad(b.X)
+							if (isPhi || cell != nil || isFieldCell) && counter == nil {
 								// the first +1 after the skip edge in the same block
 								if n.In.Block() == skipEdges[0].In.(*ssa.If).Block().Succs[0] {
 									counter = b
 									counterCell = cell
+									if isFieldCell {
+										counterFieldAlloc, counterField = fal, ffield
+									}
 								}
 							}
 						}
@@ -417,6 +423,50 @@ func runC16(c *Check) {
 						isCounter := func(v ssa.Value) bool {
 							if counterCell != nil {
 								return cellOfLoad(v, n.Ctx) == counterCell
+							}
+							if counterFieldAlloc != nil {
+								// the field itself, in the function that counts …
+								if al, fi, ok := fieldCellOfLoad(v); ok && al == counterFieldAlloc && fi == counterField {
+									return true
+								}
+								// … or the same field of the bundle the counting function returned
+								var bundle ssa.Value
+								fidx := -1
+								if fv, ok := v.(*ssa.Field); ok {
+									bundle, fidx = fv.X, fv.Field
+								} else if al, fi, ok := fieldCellOfLoad(v); ok {
+									// the bundle kept in a local variable: its one store is the call's result
+									var stores []ssa.Value
+									for _, r := range *al.Referrers() {
+										if st, ok := r.(*ssa.Store); ok && st.Addr == ssa.Value(al) {
+											stores = append(stores, st.Val)
+										}
+									}
+									if len(stores) == 1 {
+										bundle, fidx = stores[0], fi
+									}
+								}
+								if bundle != nil && fidx == counterField {
+									var call *ssa.Call
+									switch x := bundle.(type) {
+									case *ssa.Call:
+										call = x
+									case *ssa.Extract:
+										call, _ = x.Tuple.(*ssa.Call)
+									}
+									if call != nil {
+										if cal := call.Common().StaticCallee(); cal != nil && cal == counter.Parent() {
+											for _, bb := range cal.Blocks {
+												if ret, ok := bb.Instrs[len(bb.Instrs)-1].(*ssa.Return); ok && len(ret.Results) > 0 {
+													if ld, ok := spilledResult(ret, 0).(*ssa.UnOp); ok && ld.Op == token.MUL && ld.X == ssa.Value(counterFieldAlloc) {
+														return true
+													}
+												}
+											}
+										}
+									}
+								}
+								return false
 							}
 							if v == ssa.Value(cphi) || v == ssa.Value(counter) {
 								return true
@@ -1200,4 +1250,22 @@ func cellOfLoad(v ssa.Value, ctx *Ctx) *ssa.Alloc {
 		}
 	}
 	return nil
+}
+
+
+// fieldCellOfLoad: v loads a field of a local struct variable (a counter kept in a result bundle).
+func fieldCellOfLoad(v ssa.Value) (*ssa.Alloc, int, bool) {
+	u, ok := v.(*ssa.UnOp)
+	if !ok || u.Op != token.MUL {
+		return nil, 0, false
+	}
+	fa, ok := u.X.(*ssa.FieldAddr)
+	if !ok {
+		return nil, 0, false
+	}
+	al, ok := fa.X.(*ssa.Alloc)
+	if !ok {
+		return nil, 0, false
+	}
+	return al, fa.Field, true
 }
